@@ -399,6 +399,10 @@ struct World {
 }
 
 fn chan_id(i: usize) -> String {
+    // (the third local channel's id extends the second one's: channel-0, channel-1, channel-15)
+    if i == 2 {
+        return "channel-15".to_string();
+    }
     format!("channel-{i}")
 }
 thread_local! {
@@ -409,13 +413,13 @@ thread_local! {
 
 /// Counterparty channel ids deliberately collide with our own local ids (channel ids are per-chain
 /// counters, so "channel-1" on the other side next to a local "channel-1" is the normal situation):
-/// local channel-0 <-> remote channel-1, channel-1 <-> channel-2, channel-2 <-> channel-0.
+/// local channel-0 <-> remote channel-1, channel-1 <-> channel-15, channel-15 <-> channel-0.
 
 fn remote_chan_id(i: usize) -> String {
     if SAME_REMOTE.with(|c| c.get()) {
         return "channel-0".to_string();
     }
-    format!("channel-{}", (i + 1) % 3)
+    chan_id((i + 1) % 3)
 }
 const REMOTE_PORT: &str = "transfer";
 
@@ -977,11 +981,20 @@ pub fn run_case(prop: &str, case: &Case, ctx: &mut CaseCtx) -> Result<(), Violat
                         }
                     }
                     let original = IbcPacket::new(p.data.clone(), IbcEndpoint { port_id: w.port(), channel_id: chan_id(p.ch) }, IbcEndpoint { port_id: REMOTE_PORT.into(), channel_id: remote_chan_id(p.ch) }, p.seq, p.timeout.clone());
+                    // whoever relays: a relayer account, or - every third time - the governance address itself
+                    // (relaying gives nobody any say in how a packet is handled)
+                    let relayer = match (step_no % 3, &pre.admin) {
+                        (1, Some(g)) => Addr::unchecked(g.clone()),
+                        _ => w.relayer.clone(),
+                    };
                     let r = if is_timeout && !success {
-                        try_sudo(&mut w.app, &w.ics20.clone(), &Shim::Timeout { msg: IbcPacketTimeoutMsg::new(original, w.relayer.clone()) })
+                        try_sudo(&mut w.app, &w.ics20.clone(), &Shim::Timeout { msg: IbcPacketTimeoutMsg::new(original, relayer) })
                     } else {
-                        let ack = if success { br#"{"result":"AQ=="}"#.to_vec() } else { br#"{"error":"remote refused the packet"}"#.to_vec() };
-                        try_sudo(&mut w.app, &w.ics20.clone(), &Shim::Ack { msg: IbcPacketAckMsg::new(IbcAcknowledgement::new(ack), original, w.relayer.clone()) })
+                        // (error texts are never empty: ibc-go always says something, and the chain refuses the empty
+                        // `error` attribute the handler would emit - cw-multi-test like wasmd - so that on the pinned
+                        // tree such an acknowledgement can never be processed at all; see DESIGN section 3)
+                        let ack = if success { br#"{"result":"AQ=="}"#.to_vec() } else if step_no % 4 == 2 { br#"{"error":"e"}"#.to_vec() } else { br#"{"error":"remote refused the packet"}"#.to_vec() };
+                        try_sudo(&mut w.app, &w.ics20.clone(), &Shim::Ack { msg: IbcPacketAckMsg::new(IbcAcknowledgement::new(ack), original, relayer) })
                     };
                     if inject {
                         if p.tok < N_NATIVE {
